@@ -72,11 +72,15 @@ fn matcher_domains(id: &str, thorough: bool) -> Vec<Domain> {
             Domain::new("signature-classes", &sig_alpha, 3, 2, cfgs),
         ],
         (_, true) => vec![
-            Domain::new("ascii7", ASCII7, 7, 4, cfgs.clone()),
-            Domain::new("mixed8", &mixed8, 6, 4, cfgs.clone()),
+            Domain::new("ascii7-h6", ASCII7, 6, 3, cfgs.clone()),
+            Domain::new("ascii7-n4", ASCII7, 5, 4, cfgs.clone()),
+            Domain::new("ascii5-long", ASCII5, 8, 3, cfgs.clone()),
+            Domain::new("mixed8-h5", &mixed8, 5, 3, cfgs.clone()),
+            Domain::new("mixed8-n4", &mixed8, 4, 4, cfgs.clone()),
             Domain::new("fold-to-ascii", &fold_ascii, 6, 3, cfgs.clone()),
-            Domain::new("full16", &full16, 5, 3, cfgs.clone()),
-            Domain::new("signature-classes", &sig_alpha, 4, 2, cfgs),
+            Domain::new("full16", &full16, 4, 2, cfgs.clone()),
+            Domain::new("signature-classes", &sig_alpha, 3, 2, cfgs.clone()),
+            Domain::new("signature-classes-n3", &sig_alpha, 2, 3, cfgs),
         ],
     }
 }
